@@ -283,6 +283,37 @@ var c19Expand = hx.Define("c19.expand-tag-arg", func(c *c19ShortCase, s *hx.Sub)
 	return nil
 })
 
+// contents that hold single characters of the delimiters (which the generated templates avoid), where the reading is not in doubt
+
+type c19PairCase struct {
+	D       [4]string `json:"d"`
+	Custom  string    `json:"custom"`
+	Default string    `json:"default"`
+}
+
+var c19Pairs = hx.Define("c19.delimiter-characters-in-content", func(c *c19PairCase, s *hx.Sub) *hx.Violation {
+	b := map[string]any{"x": 1, "a": []any{1, 2, 3}}
+	oc, od := hx.RenderWith(c19Engine(c.D), c.Custom, b), hx.RenderWith(c19Default, c.Default, b)
+	if oc.Panic != nil {
+		return hx.V("panic@"+oc.Panic.Site, "Delims(%q) on %q: %v", c.D, c.Custom, oc.Panic)
+	}
+	if od.Panic != nil {
+		return hx.V("panic@"+od.Panic.Site, "%q: %v", c.Default, od.Panic)
+	}
+	if !od.OK() {
+		s.Exclude()
+		return nil
+	}
+	if !oc.Same(od) {
+		return hx.V("c19:differs", "with Delims%q the template %q renders %v\n   the same template with the default delimiters %q renders %v", c.D, c.Custom, oc, c.Default, od)
+	}
+	s.NT()
+	if s.WantSample() {
+		s.Sample(map[string]any{"delims": c.D, "template": c.Custom, "output": oc.String()})
+	}
+	return nil
+})
+
 var c19Small = []string{"<", ">", "[", "]", "\\", "^"}
 
 func TestC19(t *testing.T) {
@@ -337,6 +368,19 @@ func TestC19(t *testing.T) {
 					}
 				}
 			}
+		}
+	}
+	pr := c19Pairs.On(col, "exhaustive over a list: templates whose text and expressions hold single characters of two-character delimiters (a parenthesised range directly after an object opener made of parentheses, comparison signs in text next to angle-bracket delimiters, a minus sign first in an object), with white space around the objects. Oracle: same result as the default spelling on a default engine. Distinct by construction", true)
+	for i, c := range []c19PairCase{
+		{[4]string{"((", "))", "(%", "%)"}, "a  (((-1..1) | join: \",\"))  b", "a  {{(-1..1) | join: \",\"}}  b"},
+		{[4]string{"((", "))", "(%", "%)"}, "a  (( (1..2) | join ))  b (%if (x == 1)%) y (%endif%)", "a  {{ (1..2) | join }}  b {%if (x == 1)%} y {%endif%}"},
+		{[4]string{"<<", ">>", "<%", "%>"}, "a < b  <<x>>  c > d <%if x > 0%>p<%endif%>", "a < b  {{x}}  c > d {%if x > 0%}p{%endif%}"},
+		{[4]string{"<<", ">>", "<%", "%>"}, "a  <<-1>>  b  << -1 >>  c  <<- -1 ->>  d", "a  {{-1}}  b  {{ -1 }}  c  {{- -1 -}}  d"},
+		{[4]string{"[[", "]]", "[%", "%]"}, "t  [[a[0] ]]  [ u ]  [%if a[1] == 2%]  v[%endif%]", "t  {{a[0] }}  [ u ]  {%if a[1] == 2%}  v{%endif%}"},
+	} {
+		if env.Mine(i) {
+			c := c
+			pr.Run(&c)
 		}
 	}
 	strs := append([]string{}, c19Small...)
